@@ -19,10 +19,11 @@ def START_NS : Nat := 1000000000
 structure St where
   n : Nat
   progs : List (List Op)
+  cbs : Cbs
   evs : List String
   ok : Bool
 
-def St.empty : St := { n := 0, progs := [], evs := [], ok := false }
+def St.empty : St := { n := 0, progs := [], cbs := [], evs := [], ok := false }
 
 def parseProg : List String → Option (List Op)
   | [] => some []
@@ -30,18 +31,29 @@ def parseProg : List String → Option (List Op)
   | "sf" :: t :: d :: r => do
       let t ← t.toNat?; let d ← parseU64? d; let rest ← parseProg r
       if t < 32 then pure (.scheduleFuture t (START_NS + d) :: rest) else none
+  | "sa" :: t :: a :: r => do
+      let t ← t.toNat?; let a ← parseU64? a; let rest ← parseProg r
+      if t < 32 then pure (.scheduleFuture t a :: rest) else none
   | "c" :: t :: r => do let t ← t.toNat?; let rest ← parseProg r; if t < 32 then pure (.cancel t :: rest) else none
   | "acq" :: r => do let rest ← parseProg r; pure (.acquire :: rest)
   | "rel" :: r => do let rest ← parseProg r; pure (.release :: rest)
   | "sl" :: d :: r => do let _ ← parseU64? d; parseProg r   -- virtual sleep: only moves the clock
   | _ => none
 
+/-- what a task function does: one of sn / sf / sa / c -/
+def parseCbOp : List String → Option CbOp
+  | ["sn", t] => do let t ← t.toNat?; if t < 32 then pure (.scheduleNow t) else none
+  | ["sf", t, d] => do let t ← t.toNat?; let d ← parseU64? d; if t < 32 then pure (.scheduleFuture t (START_NS + d)) else none
+  | ["sa", t, a] => do let t ← t.toNat?; let a ← parseU64? a; if t < 32 then pure (.scheduleFuture t a) else none
+  | ["c", t] => do let t ← t.toNat?; if t < 32 then pure (.cancel t) else none
+  | _ => none
+
 def localS : SPc → Bool
-  | .swap | .feed | .cancels | .readClock | .runAll | .timeout | .predClock => true
+  | .swap | .feed | .cancels | .readClock | .runAll | .running | .timeout | .predClock | .cbBody _ _ => true
   | _ => false
 
 def localC : CPc → Bool
-  | .sBody _ _ | .cBody _ | .dDrainQ | .dDrainC | .dCleanUp | .dFree => true
+  | .sBody _ _ | .cBody _ | .dDrainQ | .dDrainC | .dCleanUp | .dSweep | .dcbBody _ _ | .dFree => true
   | _ => false
 
 def runLocalS : Nat → Sys → Sys
@@ -72,8 +84,9 @@ def evSched (s : Sys) (kind : String) (aux : Int) : Sys × String :=
     let s := if s.st.pc == .blocked && kind == "wake" && aux != 0 then (stepSched Cfg.fixed s).getD s else s
     let label? : Option String := match s.st.pc with
       | .loadExit | .predLoad => some "load"
-      | .lock1 | .lock2 => some "lock"
-      | .unlock1 | .unlock2 => some "unlock"
+      | .lock1 | .lock2 | .cbLock _ _ => some "lock"
+      | .unlock1 | .unlock2 | .cbUnlock _ => some "unlock"
+      | .cbNotify _ => some "signal 0"
       | .wait => some "wait"
       | .reacq true => some "wake 1"
       | .reacq false => some "wake 0"
@@ -90,7 +103,8 @@ def evClient (s : Sys) (i : Nat) (kind : String) (aux : Int) : Sys × String :=
   | none => (s, s!"C{i} DESYNC no-such-thread")
   | some c =>
     let lost := (kind == "signal" && aux < 0) || (kind == "broadcast" && aux == 0)
-    let s := if (c.pc == .notify || c.pc == .dNotify) && s.st.pc == .blocked && lost
+    let isNotify := match c.pc with | .notify | .dNotify | .dcbNotify _ => true | _ => false
+    let s := if isNotify && s.st.pc == .blocked && lost
       then (stepSched Cfg.fixed s).getD s else s
     let w := if s.st.pc == .blocked then 1 else 0
     let label? : Option String := match c.pc with
@@ -98,8 +112,9 @@ def evClient (s : Sys) (i : Nat) (kind : String) (aux : Int) : Sys × String :=
         | [] => none
         | .acquire :: _ | .release :: _ => some "rmw"
         | _ => some "lock"
-      | .unlock => some "unlock"
-      | .notify => some s!"signal {w}"
+      | .unlock | .dcbUnlock _ => some "unlock"
+      | .dcbLock _ _ => some "lock"
+      | .notify | .dcbNotify _ => some s!"signal {w}"
       | .dStore => some "store"
       | .dNotify => some s!"broadcast {w}"
       | .dJoin => some "join"
@@ -145,7 +160,7 @@ def report (s : Sys) : List String :=
   inv ++ [rel, s!"P leak {leak}", "P sched deadlock=0 livelock=0 misuse=0", "W diverged 0"]
 
 def simulate (st : St) : List String :=
-  let s0 := init st.progs
+  let s0 := init st.progs st.cbs
   let (s, out) := st.evs.foldl procEv (s0, [])
   out.reverse ++ report s
 
@@ -155,18 +170,27 @@ def step (st : St) (t : List String) : St × List String :=
   match t with
   | ["cfg", n, _mode, _seed, _stay, _spur] =>
     match n.toNat? with
-    | some n => if 1 ≤ n ∧ n ≤ 3 then ({ n := n, progs := List.replicate n [], evs := [], ok := true }, [])
+    | some n => if 1 ≤ n ∧ n ≤ 3 then ({ n := n, progs := List.replicate n [], cbs := [], evs := [], ok := true }, [])
                 else (St.empty, ["bad-op"])
     | none => (St.empty, ["bad-op"])
   | "prog" :: i :: rest =>
     match i.toNat?, parseProg rest with
     | some i, some p => if i < 4 then ({ st with progs := st.progs.set i p }, []) else (st, ["bad-op"])
     | _, _ => (st, ["bad-op"])
+  | "cb" :: t :: k :: rest =>
+    match t.toNat?, (if k == "R" then some Status.run else if k == "C" then some Status.canceled else none), parseCbOp rest with
+    | some t, some k, some op =>
+      if t < 32 then
+        -- a later line for the same (task, status) replaces the earlier one, as in the harness
+        ({ st with cbs := { task := t, status := k, op := op } :: st.cbs.filter (fun e => !(e.task == t && e.status == k)) }, [])
+      else (st, ["bad-op"])
+    | _, _, _ => (st, ["bad-op"])
   | "picks" :: _ => (st, [])
   | "choices" :: _ => (st, [])
   | "evs" :: rest => ({ st with evs := st.evs ++ rest }, [])
   | ["run"] =>
-    if st.ok && st.n > 0 && st.progs.all (wfProg 1) && decide ((st.progs.flatMap schedTasks).Nodup)
+    if st.ok && st.n > 0 && st.progs.all (wfProg 1) &&
+        decide ((st.progs.flatMap schedTasks ++ cbTargets st.cbs).Nodup)
     then (st, simulate st) else (st, ["bad-op"])
   | _ => (st, ["bad-op"])
 
